@@ -18,6 +18,7 @@ CODES = {
     36: "spec-psh-differs",
     30: "spec-flow-equivalence",
     39: "spec-invalid-checksum-packet-coalesced",
+    35: "gro-tcp-ns-flag-lost-in-merge",
     41: "gro-udp-noncandidate-overtaken",
     42: "gro-udp-skipped-datagram-overtaken",
     40: "spec-udp-order",
